@@ -20,6 +20,7 @@ type C10Monitor struct {
 	st        *Stats
 	reporters map[string]reportertypes.OracleReporter // shadow before the next tx
 	lastUse   map[string]useRec                       // selector|validator -> last reporter that counted it
+	locks     map[string]time.Time                    // selector -> end of its lock period, as stored before the next tx
 }
 
 type useRec struct {
@@ -36,6 +37,27 @@ func (m *C10Monitor) refresh(c *Chain, ctx sdk.Context) {
 	m.reporters = map[string]reportertypes.OracleReporter{}
 	_ = c.App.ReporterKeeper.Reporters.Walk(ctx, nil, func(k []byte, r reportertypes.OracleReporter) (bool, error) {
 		m.reporters[string(k)] = r
+		return false, nil
+	})
+	m.locks = map[string]time.Time{}
+	_ = c.App.ReporterKeeper.Selectors.Walk(ctx, nil, func(k []byte, s reportertypes.Selection) (bool, error) {
+		m.locks[string(k)] = s.LockedUntilTime
+		return false, nil
+	})
+}
+
+// lockKept: a lock period that has started lasts: no transaction moves the end of a selector's running lock period
+// backwards (switching again can only extend it), otherwise the stake counts for a second reporter inside the window
+func (m *C10Monitor) lockKept(c *Chain, ctx sdk.Context, name string) {
+	now := ctx.BlockTime()
+	_ = c.App.ReporterKeeper.Selectors.Walk(ctx, nil, func(k []byte, s reportertypes.Selection) (bool, error) {
+		old, ok := m.locks[string(k)]
+		if ok && old.After(now) {
+			m.st.Count("c10.lock.evals")
+			if s.LockedUntilTime.Before(old) {
+				c.Violate("C10", "c10", "running-lock-period-of-a-selector-cut-short:"+name, map[string]interface{}{"selector": sdk.AccAddress(k).String(), "was_locked_until": old.String(), "now_locked_until": s.LockedUntilTime.String(), "now": now.String()})
+			}
+		}
 		return false, nil
 	})
 }
@@ -94,6 +116,8 @@ func (m *C10Monitor) AfterTx(c *Chain, ctx sdk.Context, tx sdk.Tx, ok bool) {
 	}
 	a := c.App
 	now := ctx.BlockTime()
+	txName, _ := layerMsg(tx)
+	m.lockKept(c, ctx, txName)
 	params, _ := a.ReporterKeeper.Params.Get(ctx)
 	maxVals, _ := a.StakingKeeper.MaxValidators(ctx)
 	unbonding, _ := a.StakingKeeper.UnbondingTime(ctx)
